@@ -203,20 +203,41 @@ def run_corpus(ctx: Ctx) -> None:
         return
     import replay
 
+    import signal
+
+    class _CorpusTimeout(BaseException):
+        pass
+
+    def _alarm(*_):
+        raise _CorpusTimeout
+
     reqs = [ln.strip() for ln in p.read_text().split("\n") if ln.strip() and not ln.startswith("#")]
     real, kept = [], []
+    old_handler = signal.signal(signal.SIGALRM, _alarm)
     for q in reqs:
+        # corpus requests run the real code in this process: bound each one in time (and the process is bounded in address
+        # space, see check.py), so that a change that makes the parser hang or balloon is reported, not suffered
+        signal.alarm(20)
         try:
             a = replay.run_request(q)
+        except _CorpusTimeout:
+            a = "!!HANG"
+        except MemoryError:
+            a = "!!MemoryError"
         except Exception as e:  # noqa: BLE001
             a = "!!" + type(e).__name__
+        finally:
+            signal.alarm(0)
         if a is not None:
             kept.append(q)
             real.append(a)
+    signal.signal(signal.SIGALRM, old_handler)
     model = [m.replace("~", "") for m in run_driver(kept)]
     for q, a, m in zip(kept, real, model):
         ctx.dist["corpus_requests"] += 1
         ctx.compare("CORPUS", q, a, m)
+        if a in ("!!HANG", "!!MemoryError"):
+            ctx.fail(f"a corpus request does not terminate promptly / exhausts memory on the real code ({a[2:]})", dict(request=q[:3000]))
 
 
 def load_known(pid: str) -> list[dict]:
